@@ -132,7 +132,8 @@ def run(tier):
         ck.mc_bg("GBEma", MC.format(groups="{1}", vals="{1, 2}", rows=4, betas="TwoBetas", gaps="{1, 3}", md="FALSE", nk="FALSE"), "deep_1group_n4", workers=4)
     else:
         ck.mc("GBEma", MC.format(groups="{1, 2}", vals="{1, 2}", rows=4, betas="AllBetas", gaps="{1, 2}", md="FALSE", nk="FALSE"), "deep_2groups_n4", timeout=14400, heap="32g")
-        ck.mc("GBEma", MC.format(groups="{1}", vals="{1, 2, 3}", rows=6, betas="TwoBetas", gaps="{1, 2}", md="FALSE", nk="FALSE"), "deep_1group_n6", timeout=14400, heap="32g")
+        # (rows=6 over this alphabet is 4e9 states: out of reach; 5 rows: 1.3e8)
+        ck.mc("GBEma", MC.format(groups="{1}", vals="{1, 2, 3}", rows=5, betas="TwoBetas", gaps="{1, 2}", md="FALSE", nk="FALSE"), "deep_1group_n5", timeout=14400, heap="32g")
     ck.mc_bg("GBEma", MC.format(groups="{1}", vals="{1, 2}", rows=3, betas="HalfBeta", gaps="{1}", md="TRUE", nk="FALSE"), "neg_mask_decays", expect="EmaIsDef", workers=1)
     ck.mc_bg("GBEma", MC.format(groups="{1, 2}", vals="{1}", rows=3, betas="HalfBeta", gaps="{1}", md="FALSE", nk="TRUE"), "neg_null_key_leaks", expect="GroupsIndependent", workers=1)
 
